@@ -20,6 +20,8 @@ THEOREMS = [
     "C10_optmsg_roundtrip", "C10_optmsg_fixpoint", "C10_gen_optmsgs_ok",
     "C10_failure_update_roundtrip", "C10_gen_fdescs_ok", "C10_gen_coverage",
     "C10_scids_empty_grows",
+    "C10_elided_roundtrip_iff", "C10_elided_canonical", "C10_elided_lossy",
+    "C10_gen_elisions_ok", "C10_gen_elisions_sound", "C10_gen_elisions_sites",
 ]
 MODULE = "LV.Wire.Props"
 TARGETS = ["theories/Wire/Props.vo", "theories/Wire/Exec.vo", "theories/Wire/Examples.vo",
@@ -731,7 +733,7 @@ def run(ctx):
 
     types = sorted({r["t"] for r in wrows if r["k"] in ("msg", "val")})
     ctx.cov.update({
-        "evaluations": len(rows) + len(wrows),
+        "evaluations": len(rows) + len(wrows) + sum(r["cases"] for r in wrows if r["k"] == "sweep"),
         "distinct_nontrivial": distinct_count(
             [r for r in rows + wrows if len(r.get("b", "") or r.get("out", "")) > 4],
             lambda r: (r["k"], r.get("b") or r.get("out"), r.get("p2p"), str(r.get("known")))),
@@ -758,6 +760,17 @@ def run(ctx):
         "samples": [rows[0], {k: v for k, v in wrows[0].items() if k != "b"}],
         "correspondence_mismatches": len(bad),
         "directed_search": directed,
+        "sweep_cases": {str(r["t"]): [r["rec"], r["fix"], r["val"], r["accepted"], r["bad"]]
+                        for r in wrows if r["k"] == "sweep"},
+        "sweep_total": {k: sum(r[k] for r in wrows if r["k"] == "sweep")
+                        for k in ("cases", "rec", "fix", "val", "accepted", "bad", "emitted")},
+        "sweep_rule": "per message type: every TLV record of the valid encodings (each (type,len) once "
+                      "in quick) over its value domain (1-byte exhaustive; integers 0..260, 2^k, 2^k+-1, "
+                      "all-ones, 999..1001, x+-1, also as BigSize; long values bitwise at the ends, zero, "
+                      "ones; removed; emptied), every fixed-part byte (bit flips, 0, ff, +-1; thorough all "
+                      "256), and value->bytes with every unsigned field of a generated value over the full "
+                      "domain of its Go type; each case b->m1->b2->m2->b3 with m1==m2 (deep) and b2==b3; "
+                      "[rec, fix, val, accepted, failing] per type",
         "stage_seconds_cumulative": stage,
         "predicate_failures": dict(nviol),
     })
